@@ -268,6 +268,7 @@ EX_GAUGE = EX([
 EX_KILL = EX([("exec_disabled_is_pass_through", "disabled_is_pass_through", "the kill switch, every schedule: with Disabled on, Execute is the run function called directly — its answer, error or panic straight to the caller, exactly one direct call, no admission, no run event, no fallback, no fallback event, and both gauges stay at zero whatever everybody else is doing")])
 EX_FBVIEW = [(("exec_fb_phase_is_gauge_step", "CM.Props.ExecFbView.fb_phase_is_gauge_step", "the fallback phase of the whole-Execute model IS the bulkhead thread the K6 tie of `fallback` is about: each of its steps is `Gauge.step` on (gauge, limit) from the corresponding local state, or an event delivery that leaves the bulkhead alone"), "Props.ExecFbView"),
              (("exec_run_phase_is_run_step", "CM.Props.ExecFbView.run_phase_is_run_step", "inside `c.run` a thread of the whole-Execute model takes exactly `Run.step` — the step function the K6 tie of `run` is about"), "Props.ExecFbView")]
+EX_OLDNEW = EX([("exec_kill_switch_old_or_new", "kill_switch_old_or_new", "with EVERY setting live (operators storing override flags, kill switch, both limits, Fallback.Disabled at arbitrary moments), every schedule: a finished Execute went EITHER straight to its run function (one direct call, no event of either side) OR through the circuit under the return-value contract — never a mixture")])
 EX_LIVE = EX([("exec_never_deadlocks", "never_deadlocks", "whole Executes racing transitions and reconfigurations never deadlock")])
 RD_VIEW = [(("dyn_call_thread_view", "CM.Props.RunDynView.call_thread_view", "every schedule of calls racing operators, seen from one call thread, is a solo run of the static model's thread against some oracle — the runs the K6 ties of `run` / `IsOpen` / `openCircuit` / `close` quantify over"), "Props.RunDynView")]
 
@@ -403,12 +404,12 @@ PROPS = {
     "C06": ("fallback rules: `Execute` and `fallback`", [FALLBACK, EXECUTE, RUNENTRY] + FAN_FB + ERR_BAD + ERR_NOTBAD + K6_FB[:1] + K6_FB[2:] + EX_CONTRACT + EX_EVENTS[:2] + EX_LIVE + EX_FBVIEW),
     "C07": ("contexts: the derived deadline context in `run`, the caller's context everywhere else", [RUN, FALLBACK, EXECUTE]),
     "C08": ("overrides and pass-through: `IsOpen`, `allowNewRun`, the transitions, `Execute`'s Disabled branch, the published flags",
-            [C("IsOpen"), C("isEmptyOrNil"), C("allowNewRun"), C("openCircuit"), C("close"), C("attemptToOpen"), EXECUTE] + LIVECFG + SETCFG + ATOM_BOOL + CIRC_MISC + RD_C08 + RD_ALT + RD_VIEW + EX_KILL),
+            [C("IsOpen"), C("isEmptyOrNil"), C("allowNewRun"), C("openCircuit"), C("close"), C("attemptToOpen"), EXECUTE] + LIVECFG + SETCFG + ATOM_BOOL + CIRC_MISC + RD_C08 + RD_ALT + RD_VIEW + EX_KILL + EX_OLDNEW),
     "C09": ("transitions and their notifications",
             [C("IsOpen"), C("openCircuit"), C("close"), C("attemptToOpen"), C("OpenCircuit"), C("CloseCircuit"), C("checkSuccess"), C("checkErrFailure"), C("checkErrTimeout")] + FAN_CIRC + SETCFG + ATOM_BOOL + K6_TRANS + K6_CORE + CTOR + HFAC_CLOSER[2:3] + HFAC_OPENER[5:6] + K6_RUN + RD_ALT),
     "C10": ("panics: the deferred calls of `run` and `fallback` run on every exit", [RUN, FALLBACK, EXECUTE] + CIRC_MISC + RUN_EVENTS[:1] + RUN_C04[3:4] + RUN_LIVE + K6_RUN[:1] + RD_EVENTS[:1] + RD_GAUGE[1:2] + RD_LIVE + EX_GAUGE[1:2] + EX_EVENTS[:1] + EX_LIVE),
     "C11": ("reconfiguration: what each SetConfigThreadSafe writes (circuit, hystrix opener, hystrix closer, SLO tracker) — every setting, nothing else",
-            SETCFG + LIVECFG + OPENER_CFG + CLOSER_CFG + SLO_CFG + VARS_C11 + RD_EVENTS + RD_GAUGE + RD_ALT + RD_LIVE + RD_VIEW + RD_C08[:1] + RD_C08[3:]),
+            SETCFG + LIVECFG + OPENER_CFG + CLOSER_CFG + SLO_CFG + VARS_C11 + RD_EVENTS + RD_GAUGE + RD_ALT + RD_LIVE + RD_VIEW + RD_C08[:1] + RD_C08[3:] + EX_OLDNEW + EX_GAUGE[2:3] + EX_CONTRACT[:1] + EX_LIVE),
     "C12": ("every timestamp is a reading of the configured clock: all translated functions of circuit.go",
             [C("now"), C("OpenCircuit"), C("CloseCircuit"), RUN, FALLBACK] + ALL + CTOR[:4]),
     "C13": ("the rolling counter: rolling_bucket.go's `Advance` and rolling_counter.go's methods are the model `RC`", ROLL + FSNEW_RC + ROLL_STORE),
